@@ -105,6 +105,17 @@ func scenPendingNewLeader(dev int) *simScenario {
 	return sc
 }
 
+// a node promoted and demoted again under the same leader has fallen behind when its promotion is requested once
+// more: whatever the leader remembers of the first promotion must not count
+func scenRepromote(dev int) *simScenario {
+	seed := memberSeed{"repromote", 3, []uint64{1, 2}, []uint64{3},
+		[]string{"T:1", "run", "admin:1:promote:3", "run", "admin:1:demote:3", "run", "block:1:3", "update:1", "run", "update:1", "run"}, []string{"promote:3"}}
+	sc := scenMember(seed, dev, 1, 0, false, nil, 0)
+	sc.Menu = simMenu{Drops: true, Admin: seed.admin, MaxAdmin: 1}
+	sc.Crashes = 0
+	return sc
+}
+
 func scenDurableCut() *simScenario {
 	cut := scenRepl(replSeed{"durable-cut", []string{"T:1", "run", "block:1:3", "update:1", "update:1"}}, 2, true, 0, 0, 3)
 	cut.Name = "durable-cut"
@@ -118,6 +129,7 @@ func init() {
 	simScenarios["durable-cut"] = scenDurableCut()
 	simScenarios["member-pending-newleader"] = scenPendingNewLeader(1)
 	simScenarios["member-selfremove"] = scenSelfRemove(2, nil)
+	simScenarios["member-repromote"] = scenRepromote(1)
 	for _, s := range memberSeeds {
 		simScenarios["member-"+s.name] = scenMember(s, 1, 1, 0, false, []string{"durable"}, 1)
 		simScenarios[fmt.Sprintf("member-%s-db", s.name)] = scenMember(s, 2, 2, 0, true, []string{"durable"}, 1)
@@ -137,7 +149,7 @@ func init() {
 	// "acknowledgements [of non-voters] never count towards commitment": the durable-on-a-voter-majority oracle runs here too
 	c11 := &simCheckSpec{Prop: "C11", Oracles: []string{"nonvoter", "removed", "promote", "durable"},
 		Scenarios: func(t string) []*simScenario {
-			return append([]*simScenario{scenSelfRemove(2, nil)}, memberScenarios(t, []string{"durable"}, 1)...)
+			return append([]*simScenario{scenSelfRemove(2, nil), scenRepromote(1)}, memberScenarios(t, []string{"durable"}, 1)...)
 		}, Budget: budget,
 		MustReach: []string{"configs"}}
 	vkChecks["C11"] = func(args []string) int { return runSimCheck(c11, args) }
